@@ -209,3 +209,39 @@ Theorem C01_planned_nonvacuous :
   end.
 Proof. exact Example.planned_nonvacuous_short. Qed.
 Print Assumptions C01_planned_nonvacuous.
+(* ---- table generated from the source (harness/gen.go writes Gen/Directives.v from the linked
+   graphql.SpecifiedDirectives before every check run; these are re-proved then) ---- *)
+From GQL Require Gen.Directives Tables.DirectiveTable.
+
+(* @skip and @include as declared in directives.go are what the model assumes: usable on fields,
+   fragment spreads and inline fragments, with exactly one argument `if: Boolean!` without default. *)
+Theorem C01_gen_skip_include_declared : forall n, n = "skip" \/ n = "include" ->
+  Tables.DirectiveTable.find_gdirective n Gen.Directives.specified_directives
+  = Some (Tables.DirectiveTable.cond_directive n).
+Proof.
+  intros n [-> | ->];
+  first [ vm_compute; reflexivity
+        | fail 1 "generated-table obligation C01_gen_skip_include_declared no longer holds against the regenerated table: @skip / @include (Gen/Directives.v) do not have the locations FIELD, FRAGMENT_SPREAD, INLINE_FRAGMENT and the single argument if: Boolean! that Exec.included and PlanCollect.plan_directives assume" ].
+Qed.
+Print Assumptions C01_gen_skip_include_declared.
+
+(* Exec.included (through bool_arg) and PlanCollect.plan_directives (through bool_arg_static)
+   read the condition exactly as getArgumentValues does for the declared argument: the value of
+   the declared argument name, coerced at the declared argument type. *)
+Theorem C01_gen_condition_argument : forall n a, n = "skip" \/ n = "include" ->
+  Tables.DirectiveTable.sole_arg n = Some a ->
+  forall S d vars,
+    bool_arg S d vars
+    = match value_from_ast 3 S (Tables.DirectiveTable.to_tyref (Gen.Directives.ga_type a))
+                           (alookup (Gen.Directives.ga_name a) (d_args d)) (Some vars) with
+      | Some v => v | None => JNull end /\
+    bool_arg_static S d
+    = match value_from_ast 3 S (Tables.DirectiveTable.to_tyref (Gen.Directives.ga_type a))
+                           (alookup (Gen.Directives.ga_name a) (d_args d)) None with
+      | Some v => v | None => JNull end.
+Proof.
+  intros n a [-> | ->] H; vm_compute in H;
+  first [ injection H as <-; intros S d vars; split; reflexivity
+        | fail 1 "generated-table obligation C01_gen_condition_argument no longer holds against the regenerated table: the argument declared for @skip / @include (Gen/Directives.v) is not the one bool_arg / bool_arg_static read" ].
+Qed.
+Print Assumptions C01_gen_condition_argument.
